@@ -18,16 +18,19 @@ class Rec:
         self.delivered = []    # (message, pdu bytes, buffer, header)
 
 
-def decoder(E, rec, frm, outcomes=('message',), size_of=None):
+def decoder(E, rec, frm, outcomes=('message',), size_of=None, empty='raises', per_call=False):
     """stub decoder: decode(pdu) records its argument together with the framer's buffer/header and yields a fresh message
     (or None / an exception, by case split); lookupPduClass(fc) yields a class whose calculateRtuFrameSize is size_of"""
     def decode(data):
-        k = E.choice('decoder_outcome', list(outcomes)) if len(outcomes) > 1 else outcomes[0]
+        k = E.choice('decoder_outcome%s' % (len(rec.decoded) + rec.__dict__.get('nones', 0) if per_call else ''), list(outcomes)) if len(outcomes) > 1 else outcomes[0]
         if k == 'none':
+            rec.__dict__['nones'] = rec.__dict__.get('nones', 0) + 1
             return None
         if k == 'raises':
             raise E.Raised('struct.error')
         if L.length(data) == 0:
+            if empty == 'none':
+                return None                   # ClientDecoder.decode catches everything (C13/decoder): an empty PDU yields None
             raise E.Raised('IndexError')      # every real decoder reads data[0] first: an empty PDU never yields a message
         fc = L.at(data, 0) if E.mode != 'symbolic' or True else None
         msg = E.obj('pymodbus.pdu.ModbusResponse', transaction_id=0, protocol_id=0, unit_id=0, skip_encode=False, check=0, function_code=fc)
@@ -59,10 +62,10 @@ def callback(E, rec, on_deliver=None):
 HEADER_KEYS = {'socket': ('tid', 'pid', 'len', 'uid'), 'rtu': ('uid', 'len', 'crc'), 'ascii': ('lrc', 'len', 'uid'), 'binary': ('crc', 'len', 'uid'), 'tls': ()}
 
 
-def arbitrary_framer(E, kind, rec, outcomes=('message',), size_of=None, header='any'):
+def arbitrary_framer(E, kind, rec, outcomes=('message',), size_of=None, header='any', empty='raises'):
     """a framer of the given kind whose buffer is an arbitrary byte string and whose header holds arbitrary values"""
     frm = [None]
-    dec = decoder(E, rec, frm, outcomes, size_of)
+    dec = decoder(E, rec, frm, outcomes, size_of, empty)
     f = E.new(QUAL[kind], dec)
     E.set(f, '_buffer', E.bytes('buffer', 0, 600))
     if kind != 'tls':
